@@ -478,3 +478,7 @@ Section PartC.
     - cbn. split; reflexivity.
   Qed.
 End PartC.
+
+(* the option operations as atomic sections do what their one-at-a-time definitions do *)
+Lemma oop_body_seq {Cfg} (o : oop Cfg) s l : run_body (oop_body o) s l = oop_seq o (s, l).
+Proof. destruct o; reflexivity. Qed.
